@@ -542,6 +542,17 @@ func isAcc(s string) bool {
 	return false
 }
 
+// noState drops the assignments to R.state (text.go only; they are reported in <pfx>StateAssigns).
+func noState(xs []string) []string {
+	out := []string{}
+	for _, x := range xs {
+		if !strings.HasPrefix(x, "R.state=") {
+			out = append(out, x)
+		}
+	}
+	return out
+}
+
 // scanner extracts the facts of one SoftwrapScanner.Scan.
 func scanner(c *ex.Ctx, o *out, soft *[]string, f *ast.File, pfx, rel string, charWidthType string) {
 	fd := ex.FindFunc(f, "SoftwrapScanner", "Scan")
@@ -717,13 +728,21 @@ func scanner(c *ex.Ctx, o *out, soft *[]string, f *ast.File, pfx, rel string, ch
 		}
 		longNode = is
 		rs := is.Body.List[ri].(*ast.RangeStmt)
-		o.doc("%s: the long-word branch: statements before the loop, what it ranges over, its body as steps, statements after it.", c.Pos(is))
-		o.def(pfx+"LongPre", tL, llist(v.flat(is.Body.List[:ri])))
+		o.doc("%s: the long-word branch: statements before the loop, what it ranges over, its body as steps, statements after it (assignments to R.state left out, see %sStateAssigns).", c.Pos(is), pfx)
+		o.def(pfx+"LongPre", tL, llist(noState(v.flat(is.Body.List[:ri]))))
 		o.def(pfx+"LongRange", tS, lstr(v.expr(rs.X)))
 		var lbody []step
 		v.withRange(rs, func() { lbody = v.steps(rs.Body.List) })
+		kept := []step{}
+		for _, st := range lbody {
+			st.acts = noState(st.acts)
+			if len(st.acts) > 0 || st.g.conn != "always" {
+				kept = append(kept, st)
+			}
+		}
+		lbody = kept
 		o.def(pfx+"LongBody", tSt, lsteps(lbody))
-		o.def(pfx+"LongPost", tL, llist(v.flat(is.Body.List[ri+1:])))
+		o.def(pfx+"LongPost", tL, llist(noState(v.flat(is.Body.List[ri+1:]))))
 		chain[i].acts = []string{"LONG"}
 		longGuards = lbody
 		break
